@@ -1,0 +1,73 @@
+//go:build verif
+
+// Contracts for the request-body chunk buffer (databuffer.go), checked by /verif/govc (comment-only file).
+package http2
+
+//@ -- Chunks come from five pools, one per size class; a chunk goes back to the pool of exactly its own length
+//@ -- (the slice-to-array conversion panics otherwise). Representation invariant of a dataBuffer: every chunk has a
+//@ -- class length, r indexes into the first chunk, w into the last, and size is the number of bytes between them.
+//@ pure func chunkClass(n int) bool = n == 1024 || n == 2048 || n == 4096 || n == 8192 || n == 16384
+//@ pure func lenTo(cs seq[seq[byte]], k int) int = ite(k <= 0, 0, lenTo(cs, k-1) + len(cs[k-1]))
+//@ lemma [C08:chunk-lengths-nonneg] ltNonNeg(cs seq[seq[byte]], k int) induction k from 0 = lenTo(cs, k) >= 0
+//@ lemma [C08:chunk-lengths-suffix] ltShift(cs seq[seq[byte]], m int) induction m from 0 = 0 <= m && m + 1 <= len(cs) ==> lenTo(cs[1:], m) == lenTo(cs, m + 1) - len(cs[0])
+//@ lemma [C08:chunk-lengths-append] ltApp(cs seq[seq[byte]], c seq[byte], k int) induction k from 0 = k <= len(cs) ==> lenTo(cs ++ seq[seq[byte]]{c}, k) == lenTo(cs, k)
+//@ lemma [C08:chunk-lengths-prefix] ltPre(cs seq[seq[byte]], n int, k int) induction k from 0 = 0 <= k && k <= n && n <= len(cs) ==> lenTo(cs[:n], k) == lenTo(cs, k)
+//@ lemma [C08:chunk-lengths-after-dropping-the-first] ltDrop(cs seq[seq[byte]], k int) induction k from 0 = forall b2 seq[seq[byte]] :: 0 <= k && k + 1 <= len(cs) && k <= len(b2) && (forall i int :: 0 <= i && i < k ==> len(b2[i]) == len(cs[i+1])) ==> lenTo(b2, k) == lenTo(cs, k + 1) - len(cs[0])
+//@ pure func dbInv(b *dataBuffer) bool = 0 <= b.r && 0 <= b.w && 0 <= b.size && b.size <= 4611686018427387904 && (forall i int :: 0 <= i && i < len(b.chunks) ==> chunkClass(len(b.chunks[i]))) && (len(b.chunks) == 0 ==> b.size == 0 && b.r == 0) && (len(b.chunks) >= 1 ==> b.r < len(b.chunks[0]) && b.w <= len(b.chunks[len(b.chunks)-1]) && b.size == lenTo(b.chunks, len(b.chunks)) - b.r - (len(b.chunks[len(b.chunks)-1]) - b.w)) && (len(b.chunks) == 1 ==> b.r <= b.w)
+
+//@ -- the invariant holds for the zero value and only these methods touch the representation
+//@ writers [C08:buffer-representation-private] dataBuffer fields chunks,r,w,size only (*dataBuffer).Read,(*dataBuffer).Write,(*dataBuffer).lastChunkOrAlloc
+//@ func sync.(*Pool).Put :: p, x
+//@   trusted
+//@   assigns nothing
+//@ -- pool typing (assumed): pool i only ever holds *[class i]byte, because putDataBufferChunk files by length
+//@ func getDataBufferChunk :: size -> r
+//@   trusted
+//@   assigns nothing
+//@   ensures chunkClass(len(r))
+//@ func putDataBufferChunk :: p
+//@   props C10,C08
+//@   requires [C10:only-whole-chunks-of-a-size-class-are-recycled] chunkClass(len(p))
+//@   assigns nothing
+
+//@ func (*dataBuffer).bytesFromFirstChunk :: b -> r
+//@   props C10,C08
+//@   requires b != nil && dbInv(b) && len(b.chunks) >= 1
+//@   assigns nothing
+//@   ensures [C08:unread-part-of-the-first-chunk] r == ite(len(b.chunks) == 1, b.chunks[0][b.r:b.w], b.chunks[0][b.r:])
+
+//@ func (*dataBuffer).Len :: b -> n
+//@   props C08
+//@   requires b != nil
+//@   assigns nothing
+//@   ensures n == b.size
+
+//@ func (*dataBuffer).lastChunkOrAlloc :: b, want -> chunk
+//@   props C10,C08
+//@   requires b != nil && dbInv(b)
+//@   assigns b.chunks, b.w
+//@   ensures [C08:buffer-invariant-kept] dbInv(b) && len(b.chunks) >= 1 && chunk == b.chunks[len(b.chunks)-1] && b.w < len(chunk)
+//@   ensures [C08:existing-chunks-untouched] (b.chunks == old(b.chunks) && b.w == old(b.w)) || (b.chunks == old(b.chunks) ++ seq[seq[byte]]{chunk} && b.w == 0)
+//@   use ltApp(old(b.chunks), chunk, len(old(b.chunks)))
+//@   use ltNonNeg(old(b.chunks), len(old(b.chunks)))
+
+//@ func (*dataBuffer).Write :: b, p -> n, err
+//@   props C10,C08
+//@   requires b != nil && dbInv(b) && b.size + len(p) <= 4611686018427387904
+//@   assigns b.chunks, b.w, b.size, b.expected
+//@   ensures [C08:buffer-invariant-kept] dbInv(b)
+//@   ensures [C08:all-bytes-accepted] n == len(p) && err == nil && b.size == old(b.size) + len(p)
+//@   loop 1 invariant dbInv(b) && len(p#1) <= len(p) && b.size == old(b.size) + len(p) - len(p#1) && ntotal == len(p) && b.r == old(b.r)
+
+//@ globalinv [C08:empty-read-sentinel-set] errReadEmpty != nil
+//@ func (*dataBuffer).Read :: b, p -> n, err
+//@   props C10,C08
+//@   requires b != nil && dbInv(b)
+//@   assigns b.chunks, b.r, b.size, post(p)
+//@   ensures [C08:buffer-invariant-kept] dbInv(b)
+//@   ensures [C08:reads-what-is-there] (old(b.size) == 0 ==> n == 0 && err != nil) && (old(b.size) > 0 ==> err == nil && n == min(len(p), old(b.size)) && b.size == old(b.size) - n)
+//@   loop 1 invariant dbInv(b) && 0 <= ntotal && ntotal + len(p#1) == len(p) && b.size == old(b.size) - ntotal && b.w == old(b.w)
+//@   loop 1 use ltDrop(b.chunks, len(b.chunks) - 1)
+//@   loop 1 use ltShift(b.chunks, len(b.chunks) - 1)
+//@   loop 1 use ltNonNeg(b.chunks[1:], len(b.chunks) - 2)
+//@   loop 1 use ltNonNeg(b.chunks, len(b.chunks))
